@@ -10,6 +10,12 @@ G: the same argument sequences (TLC's initial states) are materialised: real rep
    "repo" and "repo-b" (own configs), caller/callee pair, shared local action, a file outside;
    the real LintFiles is run for each sequence with GOMAXPROCS in {1, 2, 16} and compared, file by
    file, with LintFile on a fresh Linter (relation between two real outputs).
+S: `tlc -simulate` behaviours of LinterSim.tla (Linter + history variable; the per-file programs of cache
+   operations are read off a recorded free run) are forced onto the real goroutines of LintFiles: the hook
+   points file-go / rw-reg-read / rw-reg-write / rw-read / ac-read / rw-write / ac-write (build tag verif)
+   block until the controller reaches that step; each forced run is compared file by file with LintFile
+   alone, the observed hit / miss outcomes with the behaviour (drift only); a second layout shares a BROKEN
+   local action and an unreadable reusable workflow among three files: reported exactly once per run.
 T: all outcomes are validated by TLC (EmissionTrace.tla, records of kind "pair" and "outcome");
    a -race build of the harness runs a stress set hitting the shared tables; the exported built-in
    tables are fingerprinted before and after every run.
@@ -98,6 +104,152 @@ def extra_layouts():
     o = ['loose/o1.yml', 'loose/o2.yml', 'loose/o3.yml']
     out.append(('no-project', f, [], [o, o[::-1], [o[0], o[2]]]))
     return out
+
+
+def sim_module(files, repo_of, prog):
+    """text of LinterSimMC.tla for the recorded programs"""
+    def tla_seq(ops):
+        return '<<' + ', '.join('<<"%s", "%s">>' % (o, s_) for o, s_ in ops) + '>>'
+    ids = sorted(files)
+    repos = sorted(set(repo_of.values()) - {'none'})
+    pref = [(a, b) for a in repos for b in repos if a != b and b.startswith(a)]
+    return ('----------------------------- MODULE LinterSimMC -----------------------------\n'
+            '(* generated by tools/checks/c10.py from a recorded free run of the real code *)\nEXTENDS Linter\n'
+            'FilesS == {%s}\n' % ', '.join('"%s"' % f for f in ids) +
+            'RepoOfS == [f \\in FilesS |-> CASE %s]\n' % ' [] '.join('f = "%s" -> "%s"' % (f, repo_of[f]) for f in ids) +
+            'ProgS == [f \\in FilesS |-> CASE %s]\n' % ' [] '.join('f = "%s" -> %s' % (f, tla_seq(prog[f])) for f in ids) +
+            'NamePrefixS == {%s}\n' % ', '.join('<<"%s", "%s">>' % ab for ab in pref) +
+            '=============================================================================\n')
+
+
+def read_sim_behaviours(d):
+    out = []
+    for fn in sorted(os.listdir(d)):
+        if not fn.startswith('beh_') or fn.endswith('.flt'):
+            continue
+        txt = ''.join(l for l in open(os.path.join(d, fn)) if not l.startswith('\\*') and not l.startswith('----') and not l.startswith('===='))
+        tmp = os.path.join(d, fn + '.flt')
+        open(tmp, 'w').write(txt)
+        states = list(tlaval.read_dump(tmp))
+        if len(states) >= 2:
+            out.append((list(states[0]['args']), [list(st['last']) for st in states[1:]]))
+    return out
+
+
+GATE_KINDS = {'file-go': 'start', 'rw-reg-read': 'regread', 'rw-reg-write': 'regwrite', 'rw-read': 'read', 'ac-read': 'read',
+              'rw-write': 'write', 'ac-write': 'write', 'file-done': 'finish'}
+
+
+def gate_part(ck, sd, tier, name, files, dirs, all_args, repo_of_path, nbeh, once_re=None):
+    """binding S: TLC behaviours of LinterSim forced onto the real goroutines of LintFiles"""
+    rec = {'id': 1, 'name': 'record', 'files': files, 'dirs': dirs, 'args': all_args, 'cwd': '', 'schedule': [], 'single': False}
+    vplib.write_jsonl(os.path.join(sd, 'rec-%s.jsonl' % name), [rec])
+    vplib.run_harness(['sched-run', os.path.join(sd, 'rec-%s.jsonl' % name), os.path.join(sd, 'rec-%s-out.jsonl' % name)], timeout=300)
+    ro = vplib.read_jsonl(os.path.join(sd, 'rec-%s-out.jsonl' % name))[0]
+    if ro.get('panic') or not ro['events']:
+        raise Inconclusive('gate %s: recorded run failed or the hook points are missing in this build: %s' % (name, ro.get('panic')))
+    fid = {a: 'f%d' % i for i, a in enumerate(all_args, 1)}
+    path_of = {v: k for k, v in fid.items()}
+    sid = {}
+    prog = {f: [] for f in fid.values()}
+    for e in ro['events']:
+        if e['kind'] in ('rw-reg-read', 'rw-read', 'ac-read'):
+            # local actions and reusable workflows live in different caches: the kind is part of the key
+            key = e['kind'][:2] + ':' + e['spec']
+            s_ = sid.setdefault(key, 's%d' % (len(sid) + 1))
+            prog[fid[e['file']]].append(('reg' if e['kind'] == 'rw-reg-read' else 'use', s_))
+    repo_of = {fid[a]: repo_of_path(a) for a in all_args}
+    mod = sim_module(list(fid.values()), repo_of, prog)
+    r = vplib.run_tlc('LinterSim', 'LinterSim.cfg', workers=1, simulate='file=beh,num=%d' % nbeh, depth=200,
+                      extra=['-seed', str(vplib.seed())], files={'LinterSimMC.tla': mod}, timeout=1200, name='sim-' + name)
+    if r.violated:
+        raise Inconclusive('LinterSim violates %s on the recorded programs (model level)' % r.violated)
+    behs = [b for b in read_sim_behaviours(r.dir) if len(b[0]) >= 2]      # one argument: LintFile, no goroutines
+    if not behs:
+        raise Inconclusive('TLC wrote no behaviours')
+    cases = []
+    for k, (args, lasts) in enumerate(behs, 1):
+        sched = [{'f': path_of[l[1]], 'a': l[0]} for l in lasts if l[0] in ('start', 'regread', 'regwrite', 'read', 'write', 'finish')]
+        cases.append({'id': k, 'name': 'gate:%s:%d' % (name, k), 'files': files, 'dirs': dirs, 'args': [path_of[a] for a in args], 'cwd': '',
+                      'schedule': sched, 'single': True, 'expect': [l for l in lasts if l[0] in ('regread', 'read')]})
+    vplib.write_jsonl(os.path.join(sd, 'gate-%s.jsonl' % name), cases)
+    vplib.run_harness(['sched-run', os.path.join(sd, 'gate-%s.jsonl' % name), os.path.join(sd, 'gate-%s-out.jsonl' % name)], timeout=3000)
+    res = vplib.read_jsonl(os.path.join(sd, 'gate-%s-out.jsonl' % name))
+    followed = stuck = drift = 0
+    stuck_eg = drift_eg = None
+    reported = set()
+    for c, o in zip(cases, res):
+        if o.get('panic'):
+            if o['panic'].startswith('HANG'):
+                ck.violation('gate:hang', 'LintFiles did not return after the forced schedule of %s' % c['name'], {'kind': 'gate', 'case': c})
+                continue
+            raise Inconclusive('gated case %s failed: %s' % (c['name'], o['panic']))
+        if o['fatal']:
+            raise Inconclusive('fatal error in a gated run: ' + o['fatal'])
+        if o['stuck']:
+            stuck += 1
+            stuck_eg = stuck_eg or (c['name'], o['stuck'])
+        else:
+            followed += 1
+            # conformance of the observed outcomes with the behaviour (model drift only)
+            obs = []
+            ev = o['events']
+            for i, e in enumerate(ev):
+                if e['kind'] in ('rw-hit', 'ac-hit'):
+                    obs.append(['read', fid[e['file']], 'hit'])
+                elif e['kind'] in ('rw-miss', 'ac-miss'):
+                    obs.append(['read', fid[e['file']], 'miss'])
+                elif e['kind'] == 'rw-reg-hit':
+                    obs.append(['regread', fid[e['file']], 'present'])
+                elif e['kind'] == 'rw-reg-write':
+                    obs.append(['regread', fid[e['file']], 'absent'])
+            if obs != c['expect']:
+                drift += 1
+                drift_eg = drift_eg or (c['name'], next(((x, y) for x, y in zip(c['expect'], obs) if x != y), (len(c['expect']), len(obs))))
+        # the property: every file gets what it gets alone, whatever the interleaving; the defects of a referenced local
+        # action / reusable workflow (once_re) are reported once per run
+        if once_re:
+            own = {}
+            for d in o['diags']:
+                if re.search(once_re, d['msg']):
+                    own.setdefault(d['msg'], []).append(d['file'])
+            for msg, fl in own.items():
+                if len(fl) != 1 and ('once', name) not in reported:
+                    reported.add(('once', name))
+                    ck.violation('once-per-run:gate:%s' % name,
+                                 'under the forced interleaving %s the defect of a shared local action / reusable workflow is reported %d '
+                                 'times in one run (files %s): %s' % (c['name'], len(fl), fl, msg[:160]),
+                                 {'kind': 'gate', 'case': c, 'message': msg, 'files': fl, 'events': o['events']})
+            users = [a for a in c['args'] if any(re.search(once_re, d['msg']) for d in o['single'][a])]
+            if users and not own and ('never', name) not in reported:
+                reported.add(('never', name))
+                ck.violation('once-per-run:gate:%s' % name, 'under the forced interleaving %s the defect of the shared local action / reusable '
+                             'workflow is not reported at all although %s use it' % (c['name'], users), {'kind': 'gate', 'case': c, 'events': o['events']})
+        for a in c['args']:
+            multi = [(d['line'], d['col'], d['msg']) for d in o['diags'] if (a.endswith(d['file']) or d['file'].endswith(a)) and not (once_re and re.search(once_re, d['msg']))]
+            single = [(d['line'], d['col'], d['msg']) for d in o['single'][a] if not (once_re and re.search(once_re, d['msg']))]
+            if multi != single and a not in reported:
+                reported.add(a)
+                only_m = [x for x in multi if x not in single]
+                only_s = [x for x in single if x not in multi]
+                ck.violation('isolation:gate:%s:%s' % (name, os.path.basename(a)),
+                             'under the forced interleaving %s the file %s gets different diagnostics than linted alone: only in the '
+                             'multi-file run %s; only alone %s' % (c['name'], a, only_m[:3], only_s[:3]),
+                             {'kind': 'gate', 'file': a, 'case': c, 'only_multi': only_m, 'only_single': only_s, 'events': o['events']})
+        ck.cov['evaluations'] += 1
+    ck.add_tlc('LinterSim (%s): %d behaviours (simulate) of the recorded programs forced onto the goroutines of LintFiles' % (name, len(cases)), r)
+    ck.cov['gated_behaviours'] = ck.cov.get('gated_behaviours', 0) + len(cases)
+    ck.cov['gated_behaviours_followed_to_the_end'] = ck.cov.get('gated_behaviours_followed_to_the_end', 0) + followed
+    ck.cov['traces_validated_against_impl'] += followed
+    if stuck:
+        ck.note('scheduler gate %s: %d of %d behaviours could not be followed to the end (not a violation), e.g. %s: %s'
+                % (name, stuck, len(cases), stuck_eg[0], stuck_eg[1]))
+    if drift:
+        ck.note('scheduler gate %s: model drift in %d of %d followed behaviours (observed hit/miss differs from the behaviour), e.g. %s: %s'
+                % (name, drift, followed, drift_eg[0], drift_eg[1]))
+    if followed == 0:
+        raise Inconclusive('no TLC behaviour could be forced onto the real code: the gate does not bind')
+    ck.sample({'gated_schedule': cases[0]['schedule'][:16], 'programs': {path_of[f]: p_ for f, p_ in prog.items()}})
 
 
 def run(ck, tier):
@@ -189,6 +341,19 @@ def run(ck, tier):
         else:
             ck.violation('nondeterministic:' + c['name'], 'the same multi-file run gave two different results', {'kind': 'determinism', 'case': c})
     ck.cov['traces_validated_against_impl'] += len(lines)
+    # ---- binding S: interleavings of the shared caches forced through the hook gate
+    files, dirs = layout()
+    gate_part(ck, sd, tier, 'main', files, dirs, [FILES[x] for x in ('a', 'a2', 'callee', 'b', 'out')],
+              lambda a: 'repo-b' if a.startswith('repo-b/') else 'repo' if a.startswith('repo/') else 'none', 60 if tier == 'quick' else 600)
+    # a BROKEN local action and an unreadable reusable workflow shared by three files: reported once per run
+    W = 'repo/.github/workflows/'
+    shared = {W + '%s.yml' % n: ('on: push\njobs:\n  c:\n    uses: ./.github/workflows/broken.yml\n  j:\n    runs-on: ubuntu-latest\n    steps:\n'
+                                 '      - uses: ./.github/actions/broken\n      - run: echo ${{ undefined%s }}\n' % n) for n in 'xyz'}
+    shared['repo/.github/actions/broken/action.yml'] = 'name: [\n'
+    shared[W + 'broken.yml'] = 'on:\n  workflow_call:\n    inputs: [\njobs: {}\n'
+    gate_part(ck, sd, tier, 'shared-broken', [{'path': p_, 'content': c_} for p_, c_ in sorted(shared.items())], ['repo/.git'],
+              [W + 'x.yml', W + 'y.yml', W + 'z.yml'], lambda a: 'repo', 40 if tier == 'quick' else 300,
+              once_re=r'^could not parse action metadata|^error while parsing reusable workflow|^could not read reusable workflow')
     ck.cov['argument_sequences'] = len(cases)
     ck.cov['distinct_nontrivial'] += len(cases)
     # ---- race build, stress on the shared tables
